@@ -37,7 +37,7 @@ Inductive value :=
 
 (* error outcomes are explicit: condition classes of slip plus the model's own "not in the fragment" *)
 (* EOther: any other condition or a host fault observed on the implementation; M and S never produce it *)
-Inductive err := EUnbound | EUndefined | ETooMany | EType | EBadForm | EOther.
+Inductive err := EUnbound | EUndefined | ETooMany | ETooFew | EType | EBadForm | EOther.
 Inductive res := Val (v : value) | Err (e : err) | OutOfFuel.
 
 Inductive bi := BPlus | BMinus | BLt | BList | BEmit | BProgn | BIf | BFloor | BValues | BCase | BRest.
@@ -311,13 +311,19 @@ End WithEval.
 
 (* Lambda.Call for a lambda list of required parameters, then BoundCall.  A placeholder Lambda
    (function.go 345-351, forms = [Undefined name]) accepts any arguments and signals undefined-function. *)
+(* the argument count against a lambda list of required parameters: too many arguments are rejected, and
+   since the repair C04-8 (FuncDoc.requiredCount) so are too few *)
+Definition arity_err (np nv : nat) : option err :=
+  if Nat.ltb np nv then Some ETooMany else if Nat.ltb nv np then Some ETooFew else None.
 Definition call_lambda (ev : state -> env -> sexp -> res * state) (st : state) (en : env) (a : nat) (vs : list value) : res * state :=
   match nth_error (heap st) a with
   | None => (Err EBadForm, st)
   | Some l =>
       if l_place l then (Err EUndefined, st)
-      else if Nat.ltb (List.length (l_params l)) (List.length vs) then (Err ETooMany, st)
-      else eval_body ev st (bind (l_params l) vs ++ en) (l_forms l) VNil
+      else match arity_err (List.length (l_params l)) (List.length vs) with
+           | Some e => (Err e, st)
+           | None => eval_body ev st (bind (l_params l) vs ++ en) (l_forms l) VNil
+           end
   end.
 
 (* Scope.Eval of whatever sits in a slot.  Scopes are chained caller-to-callee (Lambda.Call: s.NewScope()),
